@@ -158,6 +158,28 @@ func c05Catalogue(gwNS string, plus bool) []c05Exotic {
 			TargetRefs: []v1alpha2.LocalPolicyTargetReference{{Group: "", Kind: "Service", Name: "svc-a"}, {Group: "", Kind: "Service", Name: "missing"}},
 			KeepAlive:  &ngfAPIv1alpha1.UpstreamKeepAlive{Connections: helpers.GetPointer[int32](4)}}}},
 		{"nginxproxy-full", &ngfAPIv1alpha1.NginxProxy{ObjectMeta: metav1.ObjectMeta{Name: "np", Generation: 1}, Spec: c04BaseExtras().np.Spec}},
+		{"nginxproxy-disable-http2", &ngfAPIv1alpha1.NginxProxy{ObjectMeta: metav1.ObjectMeta{Name: "np-nohttp2", Generation: 1}, Spec: ngfAPIv1alpha1.NginxProxySpec{DisableHTTP2: true}}},
+		{"gateway-selector-invalid-label-value", &gatewayv1.Gateway{ObjectMeta: meta(gwNS, "gw-badsel"), Spec: gatewayv1.GatewaySpec{GatewayClassName: vpClassName,
+			Listeners: []gatewayv1.Listener{{Name: "sel", Port: 8082, Protocol: gatewayv1.HTTPProtocolType, AllowedRoutes: &gatewayv1.AllowedRoutes{
+				Namespaces: &gatewayv1.RouteNamespaces{From: &fromSel, Selector: &metav1.LabelSelector{MatchLabels: map[string]string{"team": "not a valid label value!"}}}}}}}}},
+		{"route-to-gw-badsel", &gatewayv1.HTTPRoute{ObjectMeta: meta(gwNS, "x-badsel"), Spec: gatewayv1.HTTPRouteSpec{
+			CommonRouteSpec: gatewayv1.CommonRouteSpec{ParentRefs: []gatewayv1.ParentReference{{Name: "gw-badsel"}}},
+			Rules:           []gatewayv1.HTTPRouteRule{{BackendRefs: []gatewayv1.HTTPBackendRef{be("svc-a", 80)}}}}}},
+		{"grpcroute-plain", &gatewayv1.GRPCRoute{ObjectMeta: meta(gwNS, "x-grpc-plain"), Spec: gatewayv1.GRPCRouteSpec{
+			CommonRouteSpec: gatewayv1.CommonRouteSpec{ParentRefs: gwParent},
+			Rules:           []gatewayv1.GRPCRouteRule{{BackendRefs: []gatewayv1.GRPCBackendRef{{BackendRef: vsBackendObj(vsBackend{Name: "svc-a", Port: 80, Weight: 1})}}}}}}},
+		{"clientsettings-on-route", &ngfAPIv1alpha1.ClientSettingsPolicy{ObjectMeta: meta(gwNS, "x-csp-route"), Spec: ngfAPIv1alpha1.ClientSettingsPolicySpec{
+			TargetRef: v1alpha2.LocalPolicyTargetReference{Group: gatewayv1.GroupName, Kind: "HTTPRoute", Name: "x-parents"},
+			Body:      &ngfAPIv1alpha1.ClientBody{MaxSize: helpers.GetPointer(ngfAPIv1alpha1.Size("3m"))}}}},
+		{"btp-ancestors-full", func() client.Object {
+			b := &v1alpha3.BackendTLSPolicy{ObjectMeta: meta(gwNS, "x-btp-full"), Spec: v1alpha3.BackendTLSPolicySpec{TargetRefs: []v1alpha2.LocalPolicyTargetReferenceWithSectionName{svcRef("svc-a")},
+				Validation: v1alpha3.BackendTLSPolicyValidation{Hostname: "b.example.com", WellKnownCACertificates: &wellKnown}}}
+			for k := 0; k < 16; k++ {
+				b.Status.Ancestors = append(b.Status.Ancestors, v1alpha2.PolicyAncestorStatus{ControllerName: "example.com/other",
+					AncestorRef: gatewayv1.ParentReference{Name: gatewayv1.ObjectName("other-gw-" + strconv.Itoa(k))}})
+			}
+			return b
+		}()},
 		{"nginxproxy-empty", &ngfAPIv1alpha1.NginxProxy{ObjectMeta: metav1.ObjectMeta{Name: "np-empty", Generation: 1}}},
 		{"crd-old-version", &metav1.PartialObjectMetadata{TypeMeta: metav1.TypeMeta{Kind: "CustomResourceDefinition", APIVersion: "apiextensions.k8s.io/v1"},
 			ObjectMeta: metav1.ObjectMeta{Name: "tlsroutes.gateway.networking.k8s.io", Annotations: map[string]string{"gateway.networking.k8s.io/bundle-version": "v0.9.0"}}}},
@@ -248,7 +270,7 @@ func TestVerifC05(t *testing.T) {
 		if r.Bool() {
 			for _, o := range objs {
 				if gc, ok := o.(*gatewayv1.GatewayClass); ok && gc.Name == vpClassName {
-					gc.Spec.ParametersRef = &gatewayv1.ParametersReference{Group: ngfAPIv1alpha1.GroupName, Kind: "NginxProxy", Name: []string{"np", "np-empty", "np-missing"}[r.Intn(3)]}
+					gc.Spec.ParametersRef = &gatewayv1.ParametersReference{Group: ngfAPIv1alpha1.GroupName, Kind: "NginxProxy", Name: []string{"np", "np-empty", "np-missing", "np-nohttp2", "np-nohttp2"}[r.Intn(5)]}
 				}
 			}
 		}
